@@ -81,7 +81,7 @@ func newC11Station(t *testing.T, out *vlib.Out) *c11Station {
 	}
 	subnets := filepath.Join(root, "internal", "test_assets", "phantom_subnets.toml")
 	gens := []uint32{1, 2, 957}
-	if os.Getenv("VERIF_C11_FOREIGN") == "1" { // generations that run into the C14 findings (owned by another builder)
+	if os.Getenv("VERIF_C11_FOREIGN") != "0" { // generations that ran into the C14 findings (zero total weight, leading-zero networks) before their repair
 		b, _ := os.ReadFile(subnets)
 		extra := "\n    [Networks.1001]\n        Generation = 1001\n        [[Networks.1001.WeightedSubnets]]\n            Weight = 0\n            Subnets = [\"192.122.190.0/24\", \"2001:48a8:687f:1::/64\"]\n" +
 			"\n    [Networks.1002]\n        Generation = 1002\n        [[Networks.1002.WeightedSubnets]]\n            Weight = 1\n            Subnets = [\"0.1.2.0/24\", \"64:ff9b::/96\"]\n"
@@ -248,15 +248,26 @@ func verdictOf(reg transports.Registration, err error, before, after int, obfs b
 
 func (s *c11Station) wrap(name string, t WrappingTransport, data []byte, phantom net.IP, modelLine string) {
 	var ans string
+	var consumed int
+	var accepted bool
 	res := vlibc11.Guard(func() {
-		buf := bytes.NewBuffer(append([]byte(nil), data...))
+		// exact capacity: a slice beyond the data panics instead of reading what lies behind it
+		exact := make([]byte, len(data))
+		copy(exact, data)
+		buf := bytes.NewBuffer(exact)
 		reg, conn, err := t.WrapConnection(buf, c11Conn{}, phantom, s.rm)
 		ans = verdictOf(reg, err, len(data), buf.Len(), name == "obfs4")
+		consumed, accepted = len(data)-buf.Len(), reg != nil
 		if conn != nil {
 			_ = conn.Close()
 		}
 	})
 	s.out.Checked()
+	// bytes.Buffer hands out its spare capacity without complaint: a transport that consumed more than
+	// was offered has read bytes the client never sent
+	if accepted && (consumed < 0 || consumed > len(data)) {
+		s.out.OracleFail("C11:wrap-"+name+":consumed-beyond-data", fmt.Sprintf("WrapConnection accepted a %d-byte flight and consumed %d bytes", len(data), consumed), modelLine)
+	}
 	if res.Hang {
 		ans = "hang"
 	} else if res.Panic != "" {
